@@ -745,6 +745,12 @@ static int verif_stub_get_from_outpacketq(int userid)
 #endif
 
 /* ---- downstream fragments (C15, C14, C01 transfer clause) ---------------------------------------- */
+/* capacity of send_chunk_or_dataless's answer buffer in the verified text (4096 in the source; see extraction rules) */
+#ifdef VERIF_SHRUNK_TU
+#define PKT_CAP 32
+#else
+#define PKT_CAP 4096
+#endif
 static void body_send_chunk(struct query *q);
 void h_send_chunk(void)
 {
@@ -765,13 +771,13 @@ static void body_send_chunk(struct query *q)
 	__CPROVER_assert(g_ans_id[0] == id0 && (id2 == 0 || g_ans_id[1] == id2), "the answers carry the ids of the held query and of its duplicate");
 	__CPROVER_assert(q->id == 0, "the held query is consumed");
 	/* C15: never more payload than the negotiated fragment size */
-	__CPROVER_assert(datalen >= 0 && datalen <= F && datalen <= 4094, "payload after the 2-byte header is at most the fragment size");
+	__CPROVER_assert(datalen >= 0 && datalen <= F && datalen <= PKT_CAP - 2, "payload after the 2-byte header is at most the fragment size");
 	__CPROVER_assert(g_tun_writes == 0 && g_sendto == 0, "no tun write, no raw send");
 	__CPROVER_assert(SESSION_WF(slot), "the session invariant is preserved");
 	__CPROVER_assert(r == 0 || r == 1, "result is 0 or 1");
 	/* header: bit 0 of byte 1 = last-fragment flag, bits 1..4 = fragment number */
 	if (resent0 <= 5 && len0 > 0) {
-		__CPROVER_assert(datalen == (F < len0 - off0 ? F : len0 - off0) || datalen == 4094, "payload is min(fragment size, remaining bytes)");
+		__CPROVER_assert(datalen == (F < len0 - off0 ? F : len0 - off0) || datalen == PKT_CAP - 2, "payload is min(fragment size, remaining bytes, answer buffer - 2)");
 		__CPROVER_assert((g_pay[1] & 1) == (off0 + datalen == len0), "last-fragment flag is set exactly on the final fragment");
 		__CPROVER_assert(((g_pay[1] >> 1) & 15) == (frag0 & 15), "fragment number field is the session's fragment counter");
 	}
